@@ -67,6 +67,8 @@ def generate(rng, tier):
     for p in sc.gen_broad(rng, 150 * n):
         p["broad"] = True
         out.append(p)
+    # remove() given the scheduler's own live .doers list, or a lazy iterable over it
+    out += sc.gen_remove_live(rng, 60 * n)
     return out
 
 
